@@ -14,7 +14,7 @@ Import ListNotations.
 From RX Require Import Generated.
 From RX.Model Require Import Base CharClass Stream Tokenizer Doc Builder Parse Api.
 From RX.Spec Require Chars.
-From RX.Proofs Require Import CharTablesProofs RejectProofs.
+From RX.Proofs Require Import CharTablesProofs RejectProofs WfParseTok WfParseChars WfParse.
 Open Scope N_scope.
 
 (* ---- Proofs/CharTablesProofs.v ---- *)
@@ -190,3 +190,34 @@ Proof. exact ok_no_text_before_root. Qed.
 Print Assumptions C08_ok_no_text_before_root.
 
 End G1.
+
+(* ---- Proofs/WfParse.v ---- *)
+Theorem C08_parse_comments_ok :
+  forall text opt d nd s,
+  parse text opt = Ok d -> In nd (d_nodes d) -> nd_kind nd = KComment s ->
+  contains_b (b "--") (slice_bytes text s) = false /\ ends_with_byte 45 (slice_bytes text s) = false.
+Proof. exact parse_comments_ok. Qed.
+Print Assumptions C08_parse_comments_ok.
+
+Theorem C08_parse_names_are_names :
+  forall text opt d, valid_utf8_b text = true -> parse text opt = Ok d ->
+  (forall nd ns local ar nss, In nd (d_nodes d) -> nd_kind nd = KElement ns local ar nss ->
+     is_ncname (slice_bytes text local)) /\
+  (forall a, In a (d_attrs d) -> is_ncname (slice_bytes text (ad_local a))) /\
+  (forall nd t v, In nd (d_nodes d) -> nd_kind nd = KPI t v -> is_name (slice_bytes text t)).
+Proof. exact parse_names_are_names. Qed.
+Print Assumptions C08_parse_names_are_names.
+
+Theorem C08_parse_all_chars :
+  forall text opt d, valid_utf8_b text = true -> parse text opt = Ok d ->
+  (forall nd st, In nd (d_nodes d) -> nd_kind nd = KText st -> all_chars (storage_bytes text st)) /\
+  (forall nd s, In nd (d_nodes d) -> nd_kind nd = KComment s -> all_chars (slice_bytes text s)) /\
+  (forall nd t v, In nd (d_nodes d) -> nd_kind nd = KPI t (Some v) -> all_chars (slice_bytes text v)) /\
+  (forall a, In a (d_attrs d) -> all_chars (storage_bytes text (ad_value a))).
+Proof. exact parse_all_chars. Qed.
+Print Assumptions C08_parse_all_chars.
+
+Theorem C08_parse_doc_wf :
+  forall text opt d, parse text opt = Ok d -> doc_wf text d.
+Proof. exact parse_doc_wf. Qed.
+Print Assumptions C08_parse_doc_wf.
